@@ -582,6 +582,8 @@ pub fn read_progress_file(path: &str) -> Vec<(usize, u64, u64, Mode)> {
 // the sweep
 
 pub const CASE_TIMEOUT_S: u64 = 25;
+/// thread-time spent inside violating cases of one target after which the target is abandoned
+pub const VIOLATION_TIME_BUDGET_NS: u64 = 20_000_000_000;
 
 pub struct SweepCfg {
     pub thorough: bool,
@@ -638,6 +640,9 @@ pub fn sweep(group: &Group, cfg: SweepCfg) -> SweepResult {
     let rot = if n > 0 { (cfg.seed as usize) % n } else { 0 };
     let threads = cfg.threads.clamp(1, MAX_WORKERS);
     let epoch = Instant::now();
+    // nanoseconds spent in violating cases per target: a target that keeps violating is abandoned
+    // (the run has failed already; the remaining units are reported as not done)
+    let viol_ns: Vec<AtomicU64> = (0..nt).map(|_| AtomicU64::new(0)).collect();
 
     let finish = |total: Local, complete: bool, hang: Option<Value>| -> SweepResult {
         let mut res = SweepResult { group: group.name.into(), ..Default::default() };
@@ -697,7 +702,7 @@ pub fn sweep(group: &Group, cfg: SweepCfg) -> SweepResult {
         });
         let mut handles = Vec::new();
         for w in 0..threads {
-            let (units, next, done, capped, stop, total, mach, progress, baselines) = (&units, &next, &done, &capped, &stop, &total, &mach, &progress, &baselines);
+            let (units, next, done, capped, stop, total, mach, progress, baselines, viol_ns) = (&units, &next, &done, &capped, &stop, &total, &mach, &progress, &baselines, &viol_ns);
             let deadline = cfg.deadline;
             handles.push(s.spawn(move || {
                 let mut local = Local::new(nt);
@@ -717,13 +722,31 @@ pub fn sweep(group: &Group, cfg: SweepCfg) -> SweepResult {
                     let ui = (k + rot) % n;
                     let u = &units[ui];
                     let t = &group.targets[u.target];
+                    if viol_ns[u.target].load(Ordering::Relaxed) > VIOLATION_TIME_BUDGET_NS {
+                        continue;
+                    }
                     for idx in u.start..u.end {
+                        if idx % 16 == 0 {
+                            if Instant::now() > deadline {
+                                capped.store(true, Ordering::SeqCst);
+                                progress.clear(w);
+                                break 'units;
+                            }
+                            if viol_ns[u.target].load(Ordering::Relaxed) > VIOLATION_TIME_BUDGET_NS {
+                                progress.clear(w);
+                                continue 'units;
+                            }
+                        }
                         // (input, shape label, weight base, inner index)
                         let run_one = |input: &[u8], shape: &str, inner: u64, local: &mut Local, modes: &mut Vec<Mode>| -> bool {
                             modes_for(t, u.phase, input.len(), modes);
                             for &mode in modes.iter() {
                                 progress.set(w, ui, idx, inner, mode, epoch.elapsed().as_millis() as u64);
+                                let started = Instant::now();
                                 let r = run_case(t, input, mode);
+                                if matches!(r, Ran::Viol { .. }) {
+                                    viol_ns[u.target].fetch_add(started.elapsed().as_nanos() as u64, Ordering::Relaxed);
+                                }
                                 match r {
                                     Ran::Skip => {
                                         local.skipped += 1;
